@@ -71,7 +71,9 @@ func (tc *TypeCtx) Type(t *Type) types.Type {
 		for i := range t.FS {
 			fs[i] = tc.Type(&t.FS[i])
 		}
-		return types.NewStruct(fs...)
+		st := types.NewStruct(fs...)
+		st.Packed = t.PK
+		return st
 	case "named":
 		if n, ok := tc.named[t.Nm]; ok {
 			return n
